@@ -11,19 +11,19 @@ from beziers.line import Line
 
 ID = "C11"
 TOPICS = ["Inter", "Lookup", "Roots", "Affine", "Eval"]
-LEAN_TARGETS = ["BezierVerif.Props.C05M", "BezierVerif.Props.C11", "BezierVerif.Props.C11B"]
+LEAN_TARGETS = ["BezierVerif.Props.C05M", "BezierVerif.Props.C11", "BezierVerif.Props.C11B", "BezierVerif.Props.C11P"]
 TV_DEFS = ["ray_line"]
 RULE = ("closed paths: rectangles, ellipses, circles, random polygons, random contours mixing lines, quadratics and cubics (simple star-shaped and self-intersecting), "
         "doubled contours (K6 family); integer and float coordinates; query points uniform in the padded bounding box, outside the box on all four sides, and level "
         "with on-curve nodes / horizontal edges / curve y-extremes (K1 family); kept only when farther than 1e-3 of the extent from the finely flattened outline "
         "(+ flattening margin); reference parity by an exact slanted ray in Q (direction re-drawn until it meets no node and no tangency; Sturm isolation); "
         "non-trivial = the reference ray crosses the path at least once; distinct = distinct (path, point)")
-UNPROVED = ["the even-odd theorem and winding-number-0-outside-the-box are proved for closed chains of LINES in clear position (levels exact, parameters outside the 2e-7 tolerance bands); for curved segments the same structure needs per-segment crossing counts = straddle parity (sampled)",
+UNPROVED = ["for curved segments the even-odd theorem is conditional (mixed_even_odd) on the per-segment hypothesis that the two rays together report every level crossing of the segment exactly once; that the crossings then have the parity of the straddle indicator is proved (segment_crossing_parity, hseg_of_partition), the partition itself (curve/line machinery + ray windows) is sampled; winding-number-0-outside-the-box is proved for chains of lines",
             "for curved segments the crossing lists come from C05's curve/line machinery: completeness of the Cardano branch is sampled (C05)",
             "float evaluation of the crossing parameters near the 2e-7 window ends (sampled; excluded by the distance rule)",
             "sign(tangent.y) = sign of the derivative's y (normalisation by a positive length; atan2/sin for lines: Polar lemmas)"]
 ASSUMPTIONS = ["clear position (C11B.Clear): verticality / horizontality of edges decided exactly, |slope| >= 2e-7 for non-vertical edges, no parameter inside a 2e-7 band", "query level differs from every node / extremum level (else K1)", "no two segments cross a ray at the same point (else K6)"]
-LEVEL_TEXT = ("theorems: polygon_even_odd (closed chains of lines in clear position: pointIsInside is true exactly when an odd number of edges straddle the query level and cross it "
+LEVEL_TEXT = ("theorems: C11P.parity_simple_roots / segment_crossing_parity (ANY segment crosses a level an odd number of times iff its end points lie on opposite sides, all crossings simple: intermediate value theorem + sign next to a simple root), mixed_even_odd (closed paths mixing lines and curves: inside iff the left ray reports an odd number of crossings, under the per-segment hypothesis; hseg_of_partition supplies it from the parity theorem); polygon_even_odd (closed chains of lines in clear position: pointIsInside is true exactly when an odd number of edges straddle the query level and cross it "
               "left of the point — derived from the regenerated code through ray_line_eq_model / ray_hit (the ray crossing rule), straddle_even (a closed chain crosses a level an even "
               "number of times), collect_flat (the dict holds every crossing once when none coincide), hit_left / hit_right; winding_zero_outside_box (closed chains of lines in clear position: a query point left of, "
               "right of, below or above the box of the vertices has winding number 0 — the far ray meets every straddling edge and the signs telescope around the closed chain (windSum_ray, "
